@@ -156,7 +156,7 @@ pub fn profile(prop: &str) -> Profile {
         "C03" => Profile { name: "uniqueness", weights: [1, 2, 5, 4, 4, 1, 9, 2, 2, 1, 0, 3], rule: "C03" },
         "C08" => Profile { name: "copy-on-write", weights: [1, 2, 5, 4, 3, 1, 1, 9, 1, 1, 0, 2], rule: "C08" },
         "C09" => Profile { name: "unwrap", weights: [1, 3, 5, 4, 3, 1, 2, 1, 9, 1, 0, 3], rule: "C09" },
-        "C11" => Profile { name: "pointers", weights: [1, 3, 5, 8, 3, 4, 1, 1, 1, 5, 0, 0], rule: "C11" },
+        "C11" => Profile { name: "pointers", weights: [1, 3, 5, 8, 3, 4, 1, 1, 1, 5, 3, 0], rule: "C11" },
         "C12" => Profile { name: "unions", weights: [1, 3, 6, 7, 4, 5, 1, 1, 1, 2, 2, 0], rule: "C12" },
         _ => Profile { name: "uniform", weights: [1, 2, 4, 4, 3, 3, 2, 2, 2, 2, 1, 1], rule: "any" },
     }
